@@ -60,8 +60,17 @@ class Raised(Exception):
 
 
 class Interp:
-    def __init__(self, globals_=None, max_steps=20000):
+    def __init__(self, globals_=None, max_steps=20000, module_tree=None):
+        """module_tree: the functions and constants of the module the evaluated function lives in may be used by it
+        (memoisation decorators are identities here; other decorators are not modelled)"""
         self.globals = dict(globals_ or {})
+        self.mod_funcs, self.mod_consts = {}, {}
+        for st in (module_tree.body if module_tree is not None else ()):
+            if isinstance(st, ast.FunctionDef) and all(norm(d.func if isinstance(d, ast.Call) else d).split(".")[-1] in
+                                                       ("lru_cache", "cache") for d in st.decorator_list):
+                self.mod_funcs[st.name] = st
+            elif isinstance(st, ast.Assign) and len(st.targets) == 1 and isinstance(st.targets[0], ast.Name):
+                self.mod_consts[st.targets[0].id] = st.value
         self.steps = 0
         self.max_steps = max_steps
 
@@ -238,6 +247,9 @@ class Interp:
             if e.id in env:
                 return env[e.id]
             if e.id in self.globals:
+                return self.globals[e.id]
+            if e.id in self.mod_consts:
+                self.globals[e.id] = self.ev(self.mod_consts[e.id], {})
                 return self.globals[e.id]
             if e.id in ("list", "dict", "tuple", "type", "str", "int", "bytes"):
                 return TypeRef(e.id)
@@ -442,6 +454,10 @@ class Interp:
             return out
         if name == "len":
             return len(self.iterate(args[0], e))
+        if name == "iter" and len(args) == 1:
+            return _View(list(self.iterate(args[0], e)))
+        if name == "bool" and len(args) == 1:
+            return self.truth(args[0])
         if name == "next" and args:
             items = self.iterate(args[0], e)
             if not items:
@@ -460,6 +476,8 @@ class Interp:
             raise AnalysisError("minieval: type(x)")
         if name in self.globals and callable(self.globals[name]):
             return self.globals[name](*args, **kwargs)
+        if name in self.mod_funcs and isinstance(f, ast.Name):
+            return self.call(self.mod_funcs[name], args, kwargs)
         raise AnalysisError(f"minieval: call of `{norm(f)}`")
 
 
